@@ -158,7 +158,7 @@ inductive Lookup
   | anyOf (ks : List Key)                       -- `field='n'` / `if ((v1 := o.get(<k>, MISSING)) is not MISSING\n     or …):`
   | pathAssign (p : List PathPart)              -- `field='n'; v1=safe_get(o, <p>, <required>)`
   | pathAnyOf (ps : List (List PathPart))
-  deriving Repr, Inhabited
+  deriving Repr, DecidableEq, Inhabited
 
 structure VField where
   name : S
